@@ -2,4 +2,6 @@
 CHECKS = {
     "C03": {"pkg": "c03", "deps": ["kit"], "level": "model_checking",
             "deadline_s": {"quick": 240, "thorough": 3000}},
+    "C01": {"pkg": "c01", "deps": ["kit"], "level": "model_checking", "closure": [["modeltrans", "model_reachable_trans"]],
+            "deadline_s": {"quick": 300, "thorough": 3000}},
 }
